@@ -88,10 +88,14 @@ def parse_check(ctx):
         extra['trace_rejections_of_other_properties'] = tst['rejections_belonging_to_other_properties']
     if thorough or pid == 'C01':
         # small-step run: every cursor state of the automata is a TLC state; the walk terminates
-        cfg2 = CFG % dict(seed=ctx.seed, K=1, maxdev=1, fam='defects' if not thorough else FAM[pid], big='FALSE')
+        cfg2 = CFG % dict(seed=ctx.seed, K=1, maxdev=1, fam='defects', big='FALSE')
         cfg2 = cfg2.replace('  Emit\n', '')
         if not thorough:
             cfg2 = cfg2.replace('Vers = {"2.0", "3.0", "3.1", "4.0"}', 'Vers = {"2.0", "3.1", "4.0"}')
+        else:
+            # liveness: under weak fairness every call reaches pc = "done" (no cursor state loops)
+            cfg2 = cfg2.replace('INIT Init\nNEXT Next\n', 'SPECIFICATION Spec\n').replace('CHECK_DEADLOCK FALSE', 'PROPERTY Terminates\nCHECK_DEADLOCK FALSE')
+            extra['liveness_checked'] = 'Terminates == <>(ps.pc = "done") under WF_vars(Next), whole small-step state graph'
         r2 = ctx.tlc('MC_Parse', cfg2, name='MC_Parse_small_' + pid)
         extra['small_step_states'] = r2['distinct']
     cov = dict(
